@@ -151,6 +151,10 @@ func GenConfig(t *sim.Tape, o GenOpts) Config {
 		}
 	} else {
 		c.Entropy = EntropyNames[t.Intn(len(EntropyNames))]
+		if c.Entropy == "TPAQ" || c.Entropy == "TPAQX" {
+			// 20-80 MiB of tables per block task: keep them at about 5% of the cases
+			c.Entropy = EntropyNames[t.Intn(len(EntropyNames))]
+		}
 	}
 	if o.MixedCase {
 		c.Entropy = caseVariant(t, c.Entropy)
